@@ -16,6 +16,13 @@ CHECK = {'level': 'model_checking',
             'run': '^TestVerifC08$',
             'shards': {'quick': 16, 'thorough': 16},
             'timeout': {'quick': 900, 'thorough': 3000}},
+           {'name': 'cachesched',
+            'pkg': './internal/verifh/storage',
+            'run': '^TestVerifC08Sched$',
+            'rewrite': SYNC_RW,
+            'gomaxprocs': 2,
+            'shards': {'quick': 16, 'thorough': 16},
+            'timeout': {'quick': 600, 'thorough': 3000}},
            {'name': 'raft',
             'pkg': './internal/physical/raft',
             'run': '^TestVerifC08Raft$',
